@@ -82,16 +82,16 @@ impl Sched {
         std::thread::spawn(move || {
             let s2 = s.clone();
             let free = s.free;
-            // Sites between `X.drop.post` and `X.dropped.post` belong to a destructor working on
+            // Sites between `blk.drop.post` and `blk.dropped.post` belong to a destructor working on
             // private memory (speculative allocations, deferred epoch garbage): not scheduled, not logged.
             let in_drop = std::cell::Cell::new(0u32);
             metrics::verif::install(Box::new(move |site, args| {
-                if site.ends_with(".drop.post") {
+                if site == "blk.drop.post" {
                     in_drop.set(in_drop.get() + 1);
                     s2.log(tid, site, args);
                     return;
                 }
-                if site.ends_with(".dropped.post") {
+                if site == "blk.dropped.post" {
                     in_drop.set(in_drop.get().saturating_sub(1));
                     s2.log(tid, site, args);
                     return;
